@@ -182,3 +182,73 @@ impl Encode for &str {
             && forall|i: int| r->Ok_0 <= i < old(raw_value)@.len() ==> final(raw_value)@[i] == old(raw_value)@[i],
 //@end
 }
+
+// ---------------------------------------------------------------- algorithm.rs (RFC 8489 18.5: 0 reserved, 1 MD5, 2 SHA-256)
+//@item! stun_rs :: mod algorithm > enum AlgorithmId
+impl Clone for AlgorithmId { fn clone(&self) -> (r: Self) ensures r == *self { *self } }
+impl Copy for AlgorithmId {}
+pub open spec fn alg_of(v: u16) -> AlgorithmId {
+    if v == 0 { AlgorithmId::Reserved } else if v == 1 { AlgorithmId::MD5 } else if v == 2 { AlgorithmId::SHA256 } else { AlgorithmId::Unassigned(v) }
+}
+pub open spec fn alg_code(a: AlgorithmId) -> u16 {
+    match a { AlgorithmId::Reserved => 0u16, AlgorithmId::MD5 => 1u16, AlgorithmId::SHA256 => 2u16, AlgorithmId::Unassigned(v) => v }
+}
+impl vstd::std_specs::convert::FromSpecImpl<u16> for AlgorithmId {
+    open spec fn obeys_from_spec() -> bool { true }
+    open spec fn from_spec(v: u16) -> Self { alg_of(v) }
+}
+impl From<u16> for AlgorithmId {
+//@item stun_rs :: mod algorithm > impl From<u16> for AlgorithmId > fn from
+//@tags C02 C19
+//@spec
+    ensures r == alg_of(val),
+//@end
+}
+impl vstd::std_specs::convert::FromSpecImpl<AlgorithmId> for u16 {
+    open spec fn obeys_from_spec() -> bool { true }
+    open spec fn from_spec(v: AlgorithmId) -> Self { alg_code(v) }
+}
+impl From<AlgorithmId> for u16 {
+//@item stun_rs :: mod algorithm > impl From<AlgorithmId> for u16 > fn from
+//@tags C02 C19
+//@spec
+    ensures r == alg_code(val),
+//@end
+}
+//@item! stun_rs :: mod algorithm > struct Algorithm
+// `Option<&[u8]>::map(Vec::from).map(Arc::new)`: an owned, shared copy of the bytes (function items as map arguments have no
+// specification; logged //@sub)
+#[verifier::external_body]
+pub fn vx_opt_arc_vec(p: Option<&[u8]>) -> (r: Option<Arc<Vec<u8>>>)
+    ensures r is Some <==> p is Some, r is Some ==> r->Some_0@ == p->Some_0@,
+{ p.map(Vec::from).map(Arc::new) }
+impl Algorithm {
+    pub open spec fn params_view(&self) -> Option<Seq<u8>> { match self.params { Some(a) => Some(a@), None => None } }
+//@item stun_rs :: mod algorithm > impl Algorithm > fn new
+//@tags C19
+//@sig
+    pub fn new(algorithm: AlgorithmId, parameters: Option<&[u8]>) -> (r: Self)
+//@sub "parameters.into().map(Vec::from).map(Arc::new)" => "vx_opt_arc_vec(parameters)"
+//@spec
+    ensures r.algorithm == algorithm, r.params_view() == (match parameters { Some(p) => Some(p@), None => None::<Seq<u8>> }),
+//@end
+//@item stun_rs :: mod algorithm > impl Algorithm > fn algorithm
+//@tags C19
+//@spec
+    ensures r == self.algorithm,
+//@end
+//@item stun_rs :: mod algorithm > impl Algorithm > fn parameters
+//@tags C19
+//@closure 1
+|v: &Arc<Vec<u8>>| -> (s: &[u8])
+    ensures s@ == v@,
+//@spec
+    ensures r is Some <==> self.params is Some, r is Some ==> r->Some_0@ == self.params->Some_0@,
+//@end
+}
+pub proof fn lemma_algorithm_ext(a: Algorithm, b: Algorithm)
+    requires a.algorithm == b.algorithm, a.params_view() == b.params_view(),
+    ensures a == b,
+{
+    if a.params is Some { axiom_arc_vec_ext(a.params->Some_0, b.params->Some_0); }
+}
